@@ -180,7 +180,9 @@ def cases(rng, tier):
             out.append({"fam": "valgrind", "arc": a, "ops": [["trunc", max(33, size - rng.randint(1, 60))]], "_timeout": 900, "_cpu_budget": 900})
     for c in out:
         if c["fam"] == "repeat":
-            c["_timeout"] = 45  # a history takes 1-3 s; a block is then named after 45 s rather than after CASE_TIMEOUT
+            # a history takes 1-3 s (quick), up to a minute with 150 repetitions of an AES key derivation; a block
+            # inside a codec library is then named after this time rather than after CASE_TIMEOUT
+            c["_timeout"] = 45 if tier == "quick" else 200
     # (c) passwords
     for a in corp:
         if a["password"] is not None:
